@@ -338,6 +338,17 @@ def clear_props_rule(ck, fb, rule="C14.flagsync"):
         if not ok:
             bad += 1
     (ck.ok if bad == 0 else lambda r_, w_, t: ck.violate(r_, w_, t, "%s:clear_props" % rule))(rule, fs3[0].where, "clear_props (%d instantiations) un-persists every member of the persistent set before clearing it and un-shares every tracked storage" % len(fs3))
+    # clear_all_props (the anonymise step of clear(), clear_all_props() and operator=) covers every entity kind that has a
+    # clear_props instantiation: a kind left out keeps its persistent/shared storages through clear() and is cloned a second
+    # time by operator= (round 5, C14i: an explicit list that forgot Entity::Mesh)
+    cap = [f for f in fb.by_cls.get(RM, []) if f.name == "clear_all_props" and f.has_cfg]
+    if len(cap) != 1:
+        raise AnalysisBroken("anchor vanished: ResourceManager::clear_all_props")
+    cap = cap[0]
+    group = [cap] + [g for g in fb.fns.values() if g.kind == "lambda" and (g.d.get("lambda_parent") or "").startswith(cap.id) and g.has_cfg]
+    called = {x.get("u") for g in group for b, i, x in g.nodes(("call",)) if b in g.reach()}
+    missing = sorted(f.id.split("@S@")[-1].rstrip(">#") for f in fs3 if f.id not in called)
+    (ck.ok if not missing else lambda r_, w_, t: ck.violate(r_, w_, t, "%s:clear_all_props:%s" % (rule, ",".join(missing))))(rule, cap.where, "clear_all_props reaches clear_props<K> for every entity kind K that has properties (%d kinds%s)" % (len(fs3), "; not reached: " + ", ".join(missing) if missing else ""))
 
 
 def run_c14(ck, fb, fbd):
